@@ -376,7 +376,9 @@ def detached_harness(kind):
         if how.startswith("remove_trait"):
             o.remove_trait("c")
         elif how == "attribute re-assigned":
-            o.c = type(init)(init)
+            # the new value is what the kept container will EQUAL after the first valid operation below (append 7 / key 7 / add 7):
+            # holding the attribute is a matter of identity, not of equality
+            o.c = {"list": [1, 2, 7], "dict": {1: 1, 2: 2, 7: 7}, "set": {1, 2, 7}}[kind]
         elif how.startswith("attribute deleted"):
             del o.c
         elif how == "owner garbage-collected":
